@@ -301,6 +301,20 @@ fn env_f64() -> f64 {
     f64::from_bits(u64::from_le_bytes(b))
 }
 
+/// The band [lo, hi] that contains ln x for a normal x > 0 (the same Pade-type bounds the `ln` stub is constrained by; plain
+/// float arithmetic, so harnesses can state obligations relative to it under Kani and natively alike).
+pub fn ln_band(x: f64) -> (f64, f64) {
+    let bits = x.to_bits();
+    let exp = ((bits >> 52) & 0x7ff) as i64;
+    let e = (exp - 1023) as f64;
+    let m = f64::from_bits((bits & ((1u64 << 52) - 1)) | (1023u64 << 52)); // [1, 2)
+    let t = m - 1.0;
+    let hi = e * std::f64::consts::LN_2 + t * (6.0 + t) / (6.0 + 4.0 * t);
+    let lo = e * std::f64::consts::LN_2 + 2.0 * t / (2.0 + t);
+    let slack = 1e-9 * (1.0 + if hi < 0.0 { -hi } else { hi });
+    (lo - slack, hi + slack)
+}
+
 /// Sound over-approximation of `f64::ln` (replaces CBMC's loose built-in model). With x = m * 2^e, m in [1,2), t = m - 1:
 ///   e*ln2 + 2t/(2+t)  <=  ln x  <=  e*ln2 + t(6+t)/(6+4t)
 /// with a 1e-9 absolute+relative slack for rounding; sign-correct; exact at 1 and 2. The band is at most 0.034 wide.
